@@ -91,8 +91,8 @@ def run(ctx):
     binp = ctx.go_build("c04")
     if not binp:
         return
-    ncode = 1200 if quick else 9000
-    nsearch = 160 if quick else 2000
+    ncode = 900 if quick else 9000
+    nsearch = 120 if quick else 2000
     rc, rows, err = ctx.jsonl([binp, "code", "-seed", str(ctx.seed), "-n", str(ncode)])
     if rc != 0 or not rows:
         ctx.broken.append(("harness-run", "c04 code failed rc=%d %s" % (rc, err[-800:])))
